@@ -9,6 +9,7 @@ import (
 	"os"
 	"path/filepath"
 	"sort"
+	"strings"
 	"time"
 
 	"github.com/FollowTheProcess/msg"
@@ -382,6 +383,15 @@ func (a *App) clean(spokfile *file.SpokFile) error {
 			}
 			toRemove = append(toRemove, resolved)
 		}
+
+		// And everything that currently matches a declared glob output
+		for _, pattern := range task.GlobOutputs {
+			matches, err := spokfile.Expand(pattern)
+			if err != nil {
+				return err
+			}
+			toRemove = append(toRemove, matches...)
+		}
 	}
 
 	// Finally, add spok's own cache to the clean list
@@ -391,6 +401,14 @@ func (a *App) clean(spokfile *file.SpokFile) error {
 	if len(toRemove) == 0 {
 		msg.Fsuccess(a.stream.Stdout, "Nothing to remove")
 		return nil
+	}
+
+	// Outputs are whatever the spokfile says they are, make sure none of them would have us
+	// remove the spokfile, the project itself or anything outside of it before removing anything
+	for _, file := range toRemove {
+		if file == spokfile.Path || !isInside(spokfile.Dir, file) {
+			return fmt.Errorf("Refusing to remove %s: only files and directories inside %s can be cleaned", file, spokfile.Dir)
+		}
 	}
 
 	for _, file := range toRemove {
@@ -407,6 +425,15 @@ func (a *App) clean(spokfile *file.SpokFile) error {
 // setStream reassigns all the app's IO streams to match the one passed in.
 func (a *App) setStream(stream iostream.IOStream) {
 	a.stream = stream
+}
+
+// isInside reports whether path is somewhere below dir (and is not dir itself).
+func isInside(dir, path string) bool {
+	rel, err := filepath.Rel(dir, path)
+	if err != nil {
+		return false
+	}
+	return rel != "." && rel != ".." && !strings.HasPrefix(rel, ".."+string(filepath.Separator))
 }
 
 func exists(path string) bool {
